@@ -271,7 +271,83 @@ def k_via_align(run, case):
                   "align passed with_scale=%r for correct_scale=%r only=%r" % (ws, cs, only))
 
 
-KINDS = {"align": k_align, "degenerate": k_degenerate, "via_align": k_via_align}
+def k_via_api(run, case):
+    """
+    The same contract at the call sites above PosePath3D.align: main_ape.ape / main_rpe.rpe with
+    alignment requested.  Whatever the two trajectories look like - far apart, or almost (or
+    exactly) identical at large distance from the origin - a requested alignment is computed:
+    umeyama_alignment is reached exactly once with the two position sets, its result passes
+    the oracle, and degenerate sets are refused there too.
+    """
+    from evo import main_ape, main_rpe
+    from evo.core import geometry, metrics
+    from evo.core.geometry import GeometryException
+    from evo.core.units import Unit
+    rng = run.rng(case)
+    n = int(rng.integers(3, 80))
+    ref = gen.traj_arrays(rng, n, pos_cls=["walk", "utm", "utm", "circle", "huge"][rng.integers(5)],
+                          rot_cls=["smooth", "uniform", "identity"][rng.integers(3)], stamp_cls="index")
+    cls = ["generic", "near-identical", "identical", "coincident"][rng.integers(4)]
+    ext = float(np.max(np.abs(ref["p"] - ref["p"].mean(axis=0)))) + 1e-3
+    if cls == "generic":
+        est = gen.perturbed_estimate(rng, ref, hostile=False)
+        A = gen.rand_se3(rng, tscale=ext)
+        est["p"] = ((A[:3, :3] @ est["p"].T).T + A[:3, 3]) / 10.0**rng.uniform(-0.5, 0.5)
+        est["R"] = np.array([A[:3, :3] @ R for R in est["R"]])
+    elif cls == "near-identical":
+        # a small rigid offset: tiny compared with the distance from the origin, not with the path
+        A = rm.se3(rm.rodrigues(gen.rand_axis(rng), 10.0**rng.uniform(-9, -6)), rng.normal(size=3) * ext * 10.0**rng.uniform(-3, -0.5))
+        c = ref["p"].mean(axis=0)
+        est = {"p": (A[:3, :3] @ (ref["p"] - c).T).T + c + A[:3, 3], "R": np.array([A[:3, :3] @ R for R in ref["R"]]),
+               "t": ref["t"].copy(), "cls": ref["cls"]}
+    elif cls == "identical":
+        est = {k: (np.array(v, copy=True) if isinstance(v, np.ndarray) else v) for k, v in ref.items()}
+    else:
+        ref["p"][:] = ref["p"][0]
+        est = {k: (np.array(v, copy=True) if isinstance(v, np.ndarray) else v) for k, v in ref.items()}
+    stamped = bool(rng.random() < .5)
+    t_ref = gen.make_evo(ref, "se3" if rng.random() < .5 else "xyzq", stamped)
+    t_est = gen.make_evo(est, "se3" if rng.random() < .5 else "xyzq", stamped)
+    align = bool(rng.random() < .7)
+    cs = bool(rng.random() < .4) or not align
+    tool = "ape" if rng.random() < .5 else "rpe"
+    seen = []
+
+    def mk(orig):
+        def w(x, y, with_scale=False):
+            xs, ys = np.array(x, copy=True), np.array(y, copy=True)
+            out = contracts.outcome_of(orig, x, y, with_scale)
+            seen.append((xs, ys, with_scale, out))
+            if out[0] == "exc":
+                raise out[1]
+            return out[1]
+        return w
+
+    with core.quiet(), contracts.wrapped(geometry, "umeyama_alignment", mk):
+        if tool == "ape":
+            out = contracts.outcome_of(main_ape.ape, t_ref, t_est, metrics.PoseRelation.translation_part, align=align, correct_scale=cs)
+        else:
+            out = contracts.outcome_of(main_rpe.rpe, t_ref, t_est, metrics.PoseRelation.translation_part, 1.0, Unit.frames,
+                                       align=align, correct_scale=cs)
+    run.seen(case, core.digest(ref["p"], est["p"], align, cs, tool, cls), cls=["via main_%s: %s pair" % (tool, cls)],
+             sample={"n": n, "tool": tool, "pair": cls, "align": align, "correct_scale": cs, "outcome": out[0],
+                     "position_class": ref["cls"][0]})
+    run.check(len(seen) == 1, "requested alignment reaches umeyama_alignment exactly once", case,
+              "main_%s.%s(align=%s, correct_scale=%s) on a %s pair reached umeyama_alignment %d times" %
+              (tool, tool, align, cs, cls, len(seen)), key="umeyama@api:not-computed")
+    for xs, ys, ws, o in seen:
+        run.check(xs.shape == (3, n) and core.bits_equal(xs, est["p"].T) and core.bits_equal(ys, ref["p"].T),
+                  "the position sets of estimate and reference are aligned", case,
+                  "umeyama_alignment received other point sets than the two trajectories' positions",
+                  key="umeyama@api:wrong-sets")
+        contracts.umeyama_oracle(run, case, xs, ys, ws, o, pfx="umeyama@api")
+    if cls == "coincident":
+        run.check(out[0] == "exc" and isinstance(out[1], GeometryException), "degenerate sets refused at the API level", case,
+                  "all-coincident positions were not refused with GeometryException by main_%s: %r" % (tool, out[1] if out[0] == "exc" else "a result"),
+                  key="umeyama@api:degenerate-accepted")
+
+
+KINDS = {"align": k_align, "degenerate": k_degenerate, "via_align": k_via_align, "via_api": k_via_api}
 
 
 def main(run):
@@ -290,7 +366,9 @@ def main(run):
         k_degenerate(run, run.case("degenerate", i))
     for i in run.mine(n // 8):
         k_via_align(run, run.case("via_align", i))
-    run.need("umeyama: proper rotation", "umeyama: optimal vs Horn",
+    for i in run.mine(n // 8):
+        k_via_api(run, run.case("via_api", i))
+    run.need("requested alignment reaches umeyama_alignment exactly once", "umeyama: proper rotation", "umeyama: optimal vs Horn",
              "umeyama: optimal vs perturbation", "noise-free: rotation reproduced",
              "equivariance: rotation", "exactly degenerate set refused",
              "umeyama: unequal shapes refused", "umeyama@align: optimal vs Horn",
